@@ -2,7 +2,7 @@
 from .. import shapes
 from ..models import make_interp
 
-FLOORS = {"C08.K1.instruction-line-gives-one-instruction": 12, "C08.K2.other-line-kinds-give-nothing": 6,
+FLOORS = {"C08.Q.searched-stream-is-this-operations": 2, "C08.K1.instruction-line-gives-one-instruction": 12, "C08.K2.other-line-kinds-give-nothing": 6,
           "C08.K3.one-per-line-in-file-order": 1, "C08.K5.parser-total-on-printed-operand-forms": 8}
 
 
@@ -53,3 +53,6 @@ def run(ctx) -> None:
     shapes.parser_total_rule(ctx, I, "C08.K5.parser-total-on-printed-operand-forms")
     from ._matchrules import observer_chain_rules
     observer_chain_rules(ctx, "C08.K6.empty-pseudo-instruction-never-reaches-the-stream", "C08.K6.every-other-instruction-reaches-the-stream")
+    # Q: the regex is searched in the stream of this operation's own listing (nothing carried over from an earlier operation)
+    from ._matchrules import stream_per_run
+    stream_per_run(ctx, "C08.Q.searched-stream-is-this-operations")
